@@ -197,12 +197,16 @@ pub fn run(prop: &str, outdir: &str, seed: u64, thorough: bool) -> serde_json::V
             for (k, (amount, status)) in [(0.0, "new"), (500.0, "paid"), (250.5, "sent")].iter().enumerate() { data.get_mut("orders").unwrap().push(vec![SV::Int(198 + k as i64), SV::Int(48), SV::Real(*amount), SV::Text(status.to_string())]); }
             db = Db::new(&w.specs, &data);
         }
+        let corpus: Vec<(&str, &str)> = crate::c08::templates().into_iter().filter(|(n, _)| !crate::c08::MISTRANSLATED.contains(n) && *n != "group-by-keys-only-with-where-two-keys").collect();
+        let in_corpus = prop == "C07" && i >= boundary.len() && i - boundary.len() < corpus.len();
         let (q0, cols) = if prop == "C07" && i < boundary.len() { st.bump("boundary_comparison_queries"); (boundary[i].clone(), vec![Col { name: "b0".into(), num: true }]) }
+            // the constructs the tree generator does not produce (the templates of C08), under the same oracle
+            else if in_corpus { st.bump("construct_template_queries"); (corpus[i - boundary.len()].1.replace("{k}", &format!("{}", r.range(0, 9))), vec![]) }
             else if prop == "C07" && r.chance(1, 14) { st.bump("degenerate_size_queries"); (r.pick(&size_shapes).to_string(), vec![Col { name: "i".into(), num: true }]) }
             else if prop == "C07" && r.chance(1, 12) { st.bump("join_condition_shape_queries"); (r.pick(&on_shapes).to_string(), vec![Col { name: "i".into(), num: true }]) }
             else if prop == "C07" && r.chance(1, 6) { st.bump("comparison_projection_queries"); cmp_query(&mut r) } else { let mut g = QGen::new(&mut r, &w.specs); g.bool_items = true; g.query(depth) };
         let is_set = q0.contains(" UNION ") || q0.contains(" INTERSECT ") || q0.contains(" EXCEPT ");
-        let (sql, _) = if is_set || (prop == "C07" && i < boundary.len()) { (q0.clone(), false) } else { decorate(&mut r, &q0, &cols) };
+        let (sql, _) = if is_set || in_corpus || (prop == "C07" && i < boundary.len()) { (q0.clone(), false) } else { decorate(&mut r, &q0, &cols) };
         let rel = match catch_unwind(AssertUnwindSafe(|| to_relation(&w, &sql))) { Ok(Ok(rel)) => rel, Ok(Err(_)) => { st.bump("query_rejected"); continue; } Err(_) => { st.bump("query_panicked"); continue; } };
         // static correspondence: optional / unique flags of the fields of every join, set operation and aggregation
         if flags.len() < if thorough { 60000 } else { 4000 } { flag_cases(&rel, &mut flags); }
@@ -236,12 +240,13 @@ pub fn run(prop: &str, outdir: &str, seed: u64, thorough: bool) -> serde_json::V
                 for (v, f) in row.iter().zip(schema.iter()) {
                     let t = f.data_type();
                     let val = sv_value(v, &t);
-                    if !member(&t, &val) && !reported {
+                    // (a float computed by SQLite and a bound computed by qrlew may differ in the last place)
+                    if !member(&t, &val) && !(matches!(v, SV::Real(_)) && crate::typegen::ulp_close(&t, &val)) && !reported {
                         reported = true;
                         let nullish = matches!(v, SV::Null);
                         // SQLite returns NULL for a division by zero where PostgreSQL raises an error: not a value of the query
                         if nullish && sql.contains(" / (t.") { reported = false; st.bump("sqlite_null_for_division_by_zero_skipped"); continue; }
-                        st.violation(json!({"kind": if nullish { "null-in-non-optional-column" } else { "value-outside-declared-type" },"query":sql,"column":f.name(),"declared_type":t.to_string(),"value":v.json(),
+                        st.violation(json!({"kind": if nullish { "null-in-non-optional-column" } else { "value-outside-declared-type" },"construct": if in_corpus { corpus[i - boundary.len()].0 } else { "generated" },"query":sql,"column":f.name(),"declared_type":t.to_string(),"value":v.json(),
                             "class": if nullish && crate::ir::all_nodes(&rel).iter().any(|n| matches!(n, Relation::Reduce(_))) { "aggregate-over-empty-or-null-input" } else if coalesce_default(&sql, v) && crate::ir::all_nodes(&rel).iter().any(|n| matches!(n, Relation::Reduce(_))) { "coalesce-default-over-aggregate-declared-non-null" } else if case_on_nullable(&rel) { "case-on-nullable-condition" } else if sql.contains(" / (t.") { "quotient-by-range-around-zero" } else { "other" }}));
                     }
                 }
